@@ -153,8 +153,54 @@ static void* fib(void* p) {
   }
   return NULL;
 }
+/* ---- reader rendezvous: "every unlock that leaves waiters admits ... all currently waiting readers".
+ * The main fiber holds the write lock until R readers are queued behind it (R may exceed the number of kernel
+ * threads), then unlocks. Every reader stays inside its read section until all R are inside: that only
+ * terminates if the one unlock admitted all of them. ---- */
+static int rv_r;
+static _Atomic int rv_inside; /* readers run in parallel: counted atomically */
+static NS int rv_waiting(void) {
+  fiber_rwlock_state_t st;
+  st.blob = rw.state.blob;
+  return (int)st.state.waiting_readers;
+}
+static NS void rv_progress(void) { sim_progress(); }
+static void* rv_reader(void* p) {
+  (void)p;
+  fiber_rwlock_rdlock(&rw);
+  atomic_fetch_add(&rv_inside, 1);
+  rv_progress();
+  while (atomic_load(&rv_inside) < rv_r) fiber_yield();
+  fiber_rwlock_rdunlock(&rw);
+  rv_progress();
+  return NULL;
+}
+static void run_rendezvous(sim_cfg_t c) {
+  rv_r = wl_int(2, 7);
+  sim_scenario("reader-rendezvous");
+  sim_describe("threads=%d reader rendezvous: %d readers queued behind one writer, admitted by its unlock preempt=1/%d", c.threads, rv_r, c.preempt_inv);
+  sim_nontrivial();
+  sim_fiber_mode();
+  fiber_manager_init(c.threads);
+  rw_p = h_dirty_alloc(sizeof *rw_p);
+  fiber_rwlock_init(&rw);
+  fiber_rwlock_wrlock(&rw);
+  fiber_t* f[8];
+  for (int i = 0; i < rv_r; i++) f[i] = fiber_create(STK, rv_reader, NULL);
+  while (rv_waiting() < rv_r) fiber_yield();
+  fiber_rwlock_wrunlock(&rw);
+  for (int i = 0; i < rv_r; i++) fiber_join(f[i], NULL);
+  if (rw.state.blob != 0) sim_violation("C07-state-at-rest", "lock word %#lx after every fiber released", (unsigned long)rw.state.blob);
+  fiber_rwlock_destroy(&rw);
+  free(rw_p);
+  h_fiber_end();
+}
 void h_run(void) {
   sim_cfg_t c = sim_config(1, 4, 0, FBIT(F_STALL));
+  if (wl_pct(10)) {
+    run_rendezvous(c);
+    return;
+  }
   nfib = wl_int(2, 7);
   int nwr = 0, nrd = 0;
   const int maxops = sim_tier_thorough() ? MAXOPS : 4;
